@@ -59,6 +59,13 @@ let () = serve (fun fn req ->
            (match jfield_opt req "old_sort" with Some (JBool b) -> b | _ -> false)
            (jcps (jfield req "name")) (jbytes (jfield req "key"))
            (ivf_of req) (jbytes (jfield req "file")))
+  | "create_in" ->
+      let dir = SL.map (fun j -> (jbytes (jfield j "name"), jnat (jfield j "size"))) (jlist (jfield req "dir")) in
+      of_option of_stream
+        (create_stream_in h384 aes_e (jnat (jfield req "maxb")) dir
+           (match jfield_opt req "old_sort" with Some (JBool b) -> b | _ -> false)
+           (jcps (jfield req "name")) (jbytes (jfield req "key"))
+           (ivf_of req) (jbytes (jfield req "file")))
   | "split" -> of_list of_bytes (split (jnat (jfield req "maxb")) (jbytes (jfield req "file")))
   | "decrypt" ->
       of_option of_bytes (decrypt_stream aes_d (jdesc (jfield req "desc")) (SL.map jbytes (jlist (jfield req "cts"))))
